@@ -279,6 +279,31 @@ pub fn explore(ctx: &Ctx) {
         macro_rules! mal { ($($t:ty),*) => {$( judge_text::<$t>(ctx, &mut l, t, None); )*}; }
         mal!(Latitude, Longitude, Elevation, Gmt);
     }
+    // every text of length <= 5 (thorough: 6) over a 12-character alphabet of the number grammar: what
+    // f64::from_str reads it as decides (signs in a row, bare signs/dots/exponents, inf/nan spellings,
+    // embedded blanks ... are all in here, so no list of "typical" malformed texts is relied on)
+    let chars: Vec<char> = "+-150.e infa".chars().collect();
+    let maxlen = if ctx.tier == Tier::Quick { 5 } else { 6 };
+    let firsts: Vec<char> = chars.clone();
+    ctx.alphabet("grammar_texts", json!({"characters": chars.iter().collect::<String>(), "max_length": maxlen, "count": (1..=maxlen as u32).map(|n| 12u64.pow(n)).sum::<u64>()}));
+    par_jobs(ctx, &firsts, |c0, l| {
+        let mut stack: Vec<String> = vec![c0.to_string()];
+        while let Some(t) = stack.pop() {
+            let denotes = t.parse::<f64>().ok();
+            macro_rules! g { ($($t:ty),*) => {$( judge_text::<$t>(ctx, l, &t, denotes); )*}; }
+            g!(Latitude, Longitude, Elevation, Gmt);
+            if denotes.is_none() {
+                l.nontrivial += 1;
+            }
+            if t.chars().count() < maxlen {
+                for c in &chars {
+                    let mut n = t.clone();
+                    n.push(*c);
+                    stack.push(n);
+                }
+            }
+        }
+    });
     // long and non-ASCII garbage: a multi-byte character at every byte offset 0..40 of a digit string,
     // plus a few real-world spellings (Arabic-Indic digits, degree sign, full-width digits)
     let mut garbage: Vec<String> = vec!["-\u{667}\u{667}\u{66b}\u{662}\u{660}\u{668}\u{665}\u{669}\u{661}\u{664}\u{660}\u{660}".into(), "39.018165100000\u{b0}N".into(), "\u{ff11}\u{ff12}.\u{ff15}".into(), "1".repeat(400), format!("{}x", "9".repeat(64))];
